@@ -171,6 +171,21 @@ def _scan_harnesses():
                 info['props'].append('C08')      # keystream harnesses cut the byte string into pieces
             info['bounds'] = '%s %s: block size %s bytes, cipher parallel width %s, %s blocks (1 block then the rest), %s; all IVs, data and cipher outputs symbolic' % (
                 mode, m.group(2), m.group(3), m.group(4), m.group(5), {'ip': 'in place', 'b2b': 'buffer to buffer', 'nat': 'native search only', None: ''}[m.group(6)])
+        if n.startswith('shim_'):
+            # conformance of the assumed shim contracts with the real dependency code: underpins every property
+            info = {'units': sorted(set(u for us in PROP_UNITS.values() for u in us)), 'props': [], 'kani': True, 'role': 'conformance of assumed shim contracts',
+                    'bounds': {'shim_inout_pair': 'inout::InOut from (&T, &mut T), T = Array<u8,3>: get_in/get_out/clone_in/reborrow/xor_in2out, all values',
+                               'shim_inout_alias': 'inout::InOut from &mut T (in place): the input side follows the output side, all values',
+                               'shim_inout_get': 'InOut<Array<Array<u8,2>,3>>::get(i), both aliasing cases, every i',
+                               'shim_inoutbuf_basic': 'InOutBuf::new length check / nothing written, len, is_empty, get_in, get_out, from(&mut [T]), from_mut; lengths 0..4',
+                               'shim_inoutbuf_split_chunks': 'InOutBuf::split_at / into_chunks::<U2> / iteration order / xor_in2out, lengths 0..5, every cut, both aliasing cases',
+                               'shim_array_ranges': 'hybrid-array range Index/IndexMut, Default, as_slice, as_mut_slice, TryFrom<&[T]>; N = 5, every range',
+                               'shim_bytes_u32_u64': 'to/from_{le,be,ne}_bytes of u32 and u64 = digits base 256, full domain (loop-free)',
+                               'shim_bytes_u128': 'to/from_{le,be,ne}_bytes of u128 = digits base 256, full domain',
+                               'shim_core_helpers': 'split_last_mut, mem::replace, usize::div_ceil, checked_sub, wrapping_add/sub, usize::try_from(u64)',
+                               'shim_typenum': 'typenum constants used by the units'}.get(n, n)}
+            out[n] = info
+            continue
         if n.startswith('misc_'):
             kind = n.split('_')[1]
             rest = n[len('misc_' + kind + '_'):]
